@@ -159,13 +159,15 @@ class MapVal:
 
 class IterVal:
     """Iterator over a concrete list of items (Cells or values) with a cursor; optional adaptor tag."""
-    __slots__ = ("items", "pos", "kind", "extra")
+    __slots__ = ("items", "pos", "kind", "extra", "stages", "count")
 
     def __init__(self, items, kind="iter", extra=None):
         self.items = items
         self.pos = 0
-        self.kind = kind
-        self.extra = extra
+        self.kind = kind          # source kind: vec_into_iter | slice_iter | map_iter | map_values
+        self.extra = extra        # "unknown_prefix" when the source has elements the harness did not fix
+        self.stages = []          # lazy adaptors in order: ("enumerate"|"map"|"filter_map"|"filter", closure)
+        self.count = 0            # enumerate counter
 
 
 _re_sp = re.compile(r"(?:std::boxed::|alloc::boxed::|std::sync::|alloc::sync::|std::rc::|alloc::rc::)?(?:Box|Arc|Rc)<")
